@@ -19,12 +19,23 @@ echo "|---|---|---|---|---|"
 fail=0
 for d in /verif/seeded/*/; do
     id=$(basename "$d")
+    if [ -n "${SELFTEST_ONLY:-}" ] && ! echo " $SELFTEST_ONLY " | grep -q " $id "; then continue; fi
     prop=$(jq -r .property "$d/meta.json")
+    if [ "$(jq -r '.withdrawn // empty' "$d/meta.json")" != "" ]; then echo "| $id | $prop | withdrawn | | $(jq -r .withdrawn "$d/meta.json" | cut -c1-200) |" >> $out; continue; fi
     need=$(jq -r .needs_to_manifest "$d/meta.json" | cut -c1-160)
     git -C /repo apply "$d/patch.diff" || { echo "| $id | $prop | patch does not apply | | |" >> $out; fail=1; continue; }
-    o=$(VERIF_SEED=${VERIF_SEED:-1} ./check "$prop" "$tier" 2>&1); rc=$?
+    # meta.json "check_with": properties whose checks are run (default: the property the change was
+    # written against); the change counts as reported if one of them exits 1
+    props=$(jq -r '(.check_with // [.property]) | join(" ")' "$d/meta.json")
+    rc=0; sigs=""; ran=""
+    for p in $props; do
+        o=$(VERIF_SEED=${VERIF_SEED:-1} ./check "$p" "$tier" 2>&1); r=$?
+        ran="$ran $p=$r"
+        if [ "$r" -eq 1 ]; then rc=1; sigs=$(echo "$o" | grep "signature:" | sed 's/^ *signature: //' | sort -u | head -3 | tr '\n' ' ' | sed 's/|/\\|/g'); break; fi
+        [ "$r" -gt "$rc" ] && rc=$r
+    done
     git -C /repo checkout -- .
-    sigs=$(echo "$o" | grep "signature:" | sed 's/^ *signature: //' | sort -u | head -3 | tr '\n' ' ' | sed 's/|/\\|/g')
+    prop="$prop ($(echo $ran))"
     echo "| $id | $prop | $rc | $sigs | $need |" >> $out
     echo "$id $prop exit=$rc"
     [ "$rc" -eq 1 ] || fail=1
